@@ -1,8 +1,8 @@
 package main
 
 import (
-	"encoding/json"
 	"context"
+	"encoding/json"
 	"flag"
 	"fmt"
 	"os"
@@ -282,7 +282,6 @@ func cmdSync(args []string) {
 		}
 	}
 }
-
 
 // candidateModel drops all quantified facts and asks for a model: a debugging aid (the model may violate the dropped facts).
 func candidateModel(sc *Script, ob *Obligation) string {
